@@ -11,7 +11,7 @@ META = {
     'functions_encoded': ['w2c2_base.h: FMIN FMAX TRUNC_S TRUNC_U TRUNC_SAT_S TRUNC_SAT_U (16 instances) DEFINE_REINTERPRET x4',
                           'C emitted by w2c2 for every f32/f64 opcode and every conversion', 'CBMC library models of fabsf copysignf ceilf floorf truncf nearbyintf (+f64)'],
     'bounds': {'operand values': 'all 2^32 / 2^64 bit patterns per operand', 'programs': 'one per float/conversion opcode + 16 chains of 2-3 conversion / rounding / bit operations', 'unwind': 70},
-    'assumptions': ['+,-,*,/ and int->float, promote/demote: oracle is the same C operator evaluated by CBMC (RNE) on the reference operand path: decides '
+    'assumptions': ['the reference semantics h/ref_ops.h is itself validated on every run against the assert_return/assert_trap vectors of /repo/tests/*.wast (native run; a disagreement aborts the check as broken machinery)', '+,-,*,/ and int->float, promote/demote: oracle is the same C operator evaluated by CBMC (RNE) on the reference operand path: decides '
                     'operator mapping, operand order and width, not IEEE conformance of a compiler',
                     'sqrt/sqrtf are modelled as one uninterpreted function shared by both sides (CBMC library model is nondeterministic)',
                     "CBMC's float model stands in for the host compiler/libm"],
@@ -33,4 +33,7 @@ def make_jobs(ctx):
         wasmvalid.validate(m)
         jobs.append(e2_job(ctx, 'chain_%d' % k, m, [{'call': 'f'}], backends=['sat', 'cvc5', 'kissat'], witnesses=['end of script|trap path'],
                            timeout=200 if ctx.quick else 900, sample={'chain': F.FLOAT_CHAINS[k]}))
-    return jobs
+    # oracle self-validation against the repository's own specification test vectors (BrokenMachinery on disagreement)
+    import wastvec
+    aux = wastvec.run_selftest(ctx, lambda op: not (op[0] == 'i' and 'trunc' not in op and 'reinterpret' not in op))
+    return jobs, aux
